@@ -39,9 +39,11 @@ ALLOWED_DERIVES = ['Clone', 'Copy', 'PartialEq', 'Eq']
 
 
 class Gen:
-    def __init__(self, unit, repo=REPO, vacuity=False):
+    def __init__(self, unit, repo=REPO, vacuity=False, case=None):
         self.unit = unit
         self.vacuity = vacuity
+        self.case = case            # (fn key, case index) when generating a case-split twin
+        self.case_splits = {}       # fn key -> list of guard expressions
         self.repo = repo
         self.files = {}
         self.rules = {}          # rule id -> count
@@ -202,6 +204,35 @@ class Gen:
             self.dropped.append(rsx.norm_ws(text[s:j])[:160])
             text = text[:s] + '()' + text[j:]
             self.bump('R4.drop_output_stmt')
+        # R5: calls into crate::error::* -> same-named top-level externals `error_<name>` (diagnostic construction is opaque)
+        mask = rsx.code_mask(text)
+        out = []
+        last = 0
+        for m in re.finditer(r'\berror::(\w+)\s*\(', text):
+            if not mask[m.start()] or (m.start() >= 2 and text[m.start() - 2:m.start()] == '::'):
+                continue
+            out.append(text[last:m.start()])
+            out.append('error_%s(' % m.group(1))
+            last = m.end()
+            self.bump('R5.error_constructor')
+        out.append(text[last:])
+        text = ''.join(out)
+        # R12b: `match RECV.m() {` with a `&mut` method call as scrutinee -> hoisted into a `let` (same evaluation order);
+        # this Verus version loses the frame of `*self` at `return`s inside such a match while the borrow is unresolved
+        mask = rsx.code_mask(text)
+        out = []
+        last = 0
+        k = 0
+        for m in re.finditer(r'\bmatch\s+(self\.toks\.(?:next|peek)\(\))\s*\{', text):
+            if not mask[m.start()]:
+                continue
+            k += 1
+            out.append(text[last:m.start()])
+            out.append('let verif_scrut%d = %s;\n        match verif_scrut%d {' % (k, m.group(1), k))
+            last = m.end()
+            self.bump('R12b.hoist_match_scrutinee')
+        out.append(text[last:])
+        text = ''.join(out)
         # R4: flushing stdout
         n_before = text.count('stdout().flush().unwrap()')
         if n_before:
@@ -241,6 +272,82 @@ class Gen:
         self.bump('anchored_sub', len(hits))
         return ''.join(out)
 
+    # R11: the thread-local SYMBOL_TABLE becomes an explicit `sym: &mut SymTab` parameter
+    SYM_CALLS = [
+        (r'\bLabel::insert\s*\(', 'Label::insert(sym, '),
+        (r'\bLabel::try_fill\s*\(', 'Label::try_fill(sym, '),
+        (r'\.filled\s*\(\s*\)', '.filled(sym)'),
+        (r'\.backpatch\s*\(\s*\)', '.backpatch(sym)'),
+        (r'\b(self_?)\.parse_instr\s*\(', r'\1.parse_instr(sym, '),
+        (r'\b(self_?)\.expect_lit_or_label\s*\(', r'\1.expect_lit_or_label(sym, '),
+        (r'\bresolve_symbol_address\s*\(', 'resolve_symbol_address(sym, '),
+        (r'\.parse_simple\s*\(\s*\)', '.parse_simple(sym)'),
+        (r'\.parse\s*\(\s*\)', '.parse(sym)'),
+    ]
+
+    def lift_symtab_sig(self, sig, where):
+        m = re.search(r'\(\s*(&\s*mut\s+self|&\s*self|mut\s+self|self)\s*(,\s*)?', sig)
+        if m:
+            rep = '(' + m.group(1) + ', sym: &mut SymTab' + (', ' if m.group(2) else '')
+            sig = sig[:m.start()] + rep + sig[m.end():]
+        else:
+            i = sig.index('(')
+            inner_empty = re.match(r'\(\s*\)', sig[i:])
+            sig = sig[:i] + '(sym: &mut SymTab' + ('' if inner_empty else ', ') + sig[i + 1:]
+        self.bump('R11.symtab_param')
+        return sig
+
+    def lift_symtab_body(self, text, where):
+        # with_symbol_table(|sym| EXPR)  ->  (EXPR)
+        while True:
+            mask = rsx.code_mask(text)
+            m = None
+            for mm in re.finditer(r'\bwith_symbol_table\s*\(\s*\|\s*sym\s*\|', text):
+                if mask[mm.start()]:
+                    m = mm
+                    break
+            if not m:
+                break
+            op = text.index('(', m.start())
+            cl = rsx.match_close(text, mask, op)
+            inner = text[m.end():cl]
+            text = text[:m.start()] + '(' + inner + ')' + text[cl + 1:]
+            self.bump('R11.closure_lifted')
+        for pat, rep in self.SYM_CALLS:
+            mask = rsx.code_mask(text)
+            out = []
+            last = 0
+            n = 0
+            for mm in re.finditer(pat, text):
+                if not mask[mm.start()]:
+                    continue
+                out.append(text[last:mm.start()])
+                out.append(mm.expand(rep))
+                last = mm.end()
+                n += 1
+            out.append(text[last:])
+            text = ''.join(out)
+            self.bump('R11.table_arg_passed', n)
+        return text
+
+    def wrap_ensures(self, contract, guard, where):
+        """case-split twin: every postcondition clause C becomes `(guard) ==> (C)` (obligation splitting; the guards of all
+        twins are proved exhaustive by a lemma in the template)."""
+        text = '\n'.join(l for l in contract if not l.strip().startswith('//'))
+        m = re.search(r'\bensures\b', text)
+        if not m:
+            raise ExtractError('//@cases without ensures in %s' % where)
+        head, tail = text[:m.end()], text[m.end():]
+        dm = re.search(r'\n\s*decreases\b', tail)
+        dec = ''
+        if dm:
+            dec = tail[dm.start():]
+            tail = tail[:dm.start()]
+        clauses = [c.strip() for c in rsx.split_top_commas(tail) if c.strip()]
+        out = head + '\n' + ''.join('            (%s) ==> (%s),\n' % (guard, c) for c in clauses) + dec
+        self.bump('case_split_clauses_wrapped', len(clauses))
+        return out.split('\n')
+
     def closure_contract(self, text, spec, where):
         """R15: `callee(|p| EXPR)` -> `callee(|p: T| -> (verif_ret: R) ensures verif_ret == (EXPR) { EXPR })`.
         The closure's postcondition is derived mechanically from its own (single-expression) body."""
@@ -256,12 +363,30 @@ class Gen:
         m = hits[0]
         op = text.index('(', m.start())
         cl = rsx.match_close(text, mask, op)
-        body = text[m.end():cl].strip()
+        # the closure expression ends at the first top-level comma (further call arguments follow) or at the call's `)`
+        depth = 0
+        end = cl
+        for j in range(m.end(), cl):
+            if not mask[j]:
+                continue
+            c = text[j]
+            if c in '([{':
+                depth += 1
+            elif c in ')]}':
+                depth -= 1
+            elif c == ',' and depth == 0:
+                end = j
+                break
+        body = text[m.end():end].strip()
+        if body.startswith('{') and body.endswith('}'):
+            inner = body[1:-1].strip()
+            if ';' not in inner:
+                body = inner
         if body.startswith('{') or ';' in body:
             raise ExtractError('closure argument of %s is not a single expression in %s' % (callee, where))
-        rep = '%s(|%s: %s| -> (verif_ret: %s) ensures verif_ret == (%s) { %s })' % (callee, m.group(1), pty, rty, body, body)
+        rep = '%s(|%s: %s| -> (verif_ret: %s) ensures verif_ret == (%s) { %s }' % (callee, m.group(1), pty, rty, body, body)
         self.bump('R15.closure_contract')
-        return text[:m.start()] + rep + text[cl + 1:]
+        return text[:m.start()] + rep + text[end:]
 
     def name_return(self, sig, ret):
         mask = rsx.code_mask(sig)
@@ -324,6 +449,12 @@ class Gen:
             keep = [d for d in derives if d in ALLOWED_DERIVES]
         body = self.strip_attrs(raw)
         body = self.strip_vis(body)
+        if 'tsub' in kv:
+            a_, b_ = kv['tsub'].split('=>')
+            if a_ not in body:
+                raise ExtractError('tsub: type text %r not found in %s %s' % (a_, kind, name))
+            body = body.replace(a_, b_)
+            self.bump('R10.field_type_standin')
         head = ''
         if keep:
             head = '#[derive(%s)]\n' % ', '.join(keep)
@@ -350,6 +481,8 @@ class Gen:
         dispatch = None
         fn_attrs = []
         closures = []
+        cases = None
+        symtab = False
         sigsubs = []
         i = 0
         while i < len(block):
@@ -388,11 +521,24 @@ class Gen:
                 self.shared_contracts.append(cname)
             elif s.startswith('//@closure'):
                 closures.append(s[len('//@closure'):].strip().split())
+            elif s.startswith('//@symtab'):
+                symtab = True
+            elif s.startswith('//@cases'):
+                cases = [c.strip() for c in s[len('//@cases'):].split('|') if c.strip()]
             elif s.startswith('//@'):
                 raise ExtractError('unknown directive inside //@fn: %s' % s)
             else:
                 contract.append(ln)
             i += 1
+        fn_key = '%s::%s' % (impl, name)
+        if cases:
+            self.case_splits[fn_key] = cases
+            if self.case and self.case[0] == fn_key:
+                contract = self.wrap_ensures(contract, cases[self.case[1]], where)
+            elif not self.vacuity:
+                # main file: the body is verified case by case in the twins; here only the contract is exported
+                kv = dict(kv, assumed='1')
+                self.bump('case_split_main_assumed')
         if self.vacuity and self.vacuity == '%s::%s' % (impl, name) and 'ext' not in kv and 'assumed' not in kv:
             # vacuity twin (DESIGN §6.5): add the clause `false` to the postcondition; it must FAIL
             idx = [k for k, c in enumerate(contract) if re.match(r'\s*ensures\b', c)]
@@ -410,6 +556,8 @@ class Gen:
         if mut_self:
             sig2 = re.sub(r'\(\s*mut\s+self\b', '(self', sig2, count=1)
             self.bump('R12.mut_self')
+        if symtab:
+            sig2 = self.lift_symtab_sig(sig2, where)
         for anchor, repl, many in sigsubs:
             sig2 = self.apply_sub(sig2, anchor, repl, many, where + ' (signature)')
         if 'ret' in kv:
@@ -444,6 +592,8 @@ class Gen:
             rep = 'match %s {\n%s\n        }' % (m.group(1), '\n'.join(arms))
             body2 = body2[:m.start()] + rep + body2[m.end():]
             self.bump('R9.dispatch_table')
+        if symtab:
+            body2 = self.lift_symtab_body(body2, where)
         for cl in closures:
             body2 = self.closure_contract(body2, cl, where)
         for anchor, repl, many in subs:
@@ -533,18 +683,20 @@ def generate_vacuity(unit, outdir, repo=REPO, fn_key=None):
     return generate(unit, outdir, repo, vacuity=fn_key)
 
 
-def generate(unit, outdir, repo=REPO, vacuity=False):
+def generate(unit, outdir, repo=REPO, vacuity=False, case=None):
     tpl = os.path.join(VERIF, 'verus', 'units', unit + '.rs')
-    g = Gen(unit, repo, vacuity)
+    g = Gen(unit, repo, vacuity, case)
     text = g.run(tpl)
     os.makedirs(outdir, exist_ok=True)
     tag = ''
     if vacuity:
         tag = '_vac_' + re.sub(r'[^A-Za-z0-9]+', '_', vacuity)
+    if case:
+        tag = '_case_' + re.sub(r'[^A-Za-z0-9]+', '_', case[0]) + '_%d' % case[1]
     out = os.path.join(outdir, unit + tag + '.rs')
     open(out, 'w', encoding='utf-8').write(text)
     meta = {'unit': unit, 'file': out, 'rules': g.rules, 'slices': g.slices, 'funcs': g.funcs,
-            'dropped_statements': g.dropped, 'origin': g.origin, 'smt_options': g.smt_options,
+            'dropped_statements': g.dropped, 'origin': g.origin, 'smt_options': g.smt_options, 'case_splits': g.case_splits,
             'shared_contracts': g.shared_contracts}
     return out, meta
 
